@@ -19,6 +19,12 @@
 //	    route viafake with the raw downstream proxy's answer to the CONNECT spelled out: status 200|201|202|204|299
 //	    (any 2xx establishes the tunnel, RFC 9110 9.3.6) or a refusal (403|407|500|502|503: relayed with its body of
 //	    <banner> bytes, then the downstream proxy hangs up); style: std | noreason | custom | hdrs | cl0 | h10
+//	multi <via|viafake> <lst> <n> <early> <banner> <seed> <gate> <procs>
+//	    n tunnels AT ONCE through one proxy under test and one downstream proxy, each with its own target, its own
+//	    early data and its own banner (seeds derived from <seed>); gate=1: a response modifier holds tunnel 0's 200
+//	    back until the other tunnels are open (their CONNECT exchanges happen between tunnel 0's connect() and the
+//	    write of its 200), gate=0: all opened concurrently; procs=1: GOMAXPROCS(1) for the duration of the op.
+//	    Then traffic on all tunnels at once, closes, release. Per-tunnel byte identity. A whole case in one op.
 //	unreach <route> <lst> [<kind> [near|far]]
 //	                                 CONNECT whose dial fails with the given kind of error: refused (default) |
 //	                                 timeout (net.Error, Timeout() true) | eof | dns | ctx (context.DeadlineExceeded)
@@ -55,6 +61,7 @@ import (
 	"net/http"
 	"net/url"
 	"os"
+	"runtime"
 	"strconv"
 	"strings"
 	"sync"
@@ -346,6 +353,8 @@ type ex struct {
 	released  string
 	route     string
 	nUnreach  int
+	gateHost   string        // op multi: the CONNECT whose response is held back by the response modifier
+	gateCh     chan struct{} // closed to release it
 	fakeStatus int    // op openfake: the raw downstream proxy's answer
 	fakeStyle  string
 	fakeSeed   int
@@ -419,6 +428,18 @@ func (e *ex) newProxy(lst, tgt string, down string, timeout time.Duration) (stri
 	p.SetTimeout(timeout)
 	if down != "" {
 		p.SetDownstreamProxy(&url.URL{Host: down})
+		if e.gateCh != nil {
+			host, ch := e.gateHost, e.gateCh
+			p.SetResponseModifier(martian.ResponseModifierFunc(func(res *http.Response) error {
+				if res.Request != nil && res.Request.Method == "CONNECT" && res.Request.URL != nil && res.Request.URL.Host == host {
+					select {
+					case <-ch:
+					case <-time.After(5 * time.Second):
+					}
+				}
+				return nil
+			}))
+		}
 	}
 	{
 		p.SetDial(func(n, a string) (net.Conn, error) {
@@ -490,15 +511,25 @@ func (e *ex) fakeProxy(banner int) (string, bool) {
 	if status == 0 {
 		status, style = 200, "custom"
 	}
+	serve := func(c net.Conn) { fakeServe(c, banner, status, style, seedT) }
 	l, ok := e.listen()
 	if !ok {
 		return "", false
 	}
 	go func() {
-		c, err := l.Accept()
-		if err != nil {
-			return
+		for {
+			c, err := l.Accept()
+			if err != nil {
+				return
+			}
+			go serve(c)
 		}
+	}()
+	return l.Addr().String(), true
+}
+
+func fakeServe(c net.Conn, banner, status int, style string, seedT int) {
+	func() {
 		defer c.Close()
 		br := bufio.NewReader(c)
 		c.SetReadDeadline(time.Now().Add(10 * time.Second))
@@ -582,7 +613,274 @@ func (e *ex) fakeProxy(banner int) (string, bool) {
 			}
 		}
 	}()
-	return l.Addr().String(), true
+}
+
+// multi: several tunnels at once (see the package comment). Seeds/sizes per tunnel are the same
+// functions of the op's arguments in Drv/C04.lean.
+func multiSeeds(seed, i int) (int, int)  { return (seed + 31*i) % 256, (seed + 17 + 57*i) % 256 }
+func multiSizes(i int) (int, int)        { return 1000 + 777*i, 3000 + 1001*i }
+
+type tun struct {
+	c, t     *end
+	taddr    string
+	accepted chan net.Conn
+	early    []byte
+}
+
+func (e *ex) multi(f []string) core.Result {
+	if e.opened || e.status != 0 || e.c != nil || len(f) != 9 {
+		return core.Result{Impl: "bad-op"}
+	}
+	route, lst, n, early, banner, seed, gate, procs := f[1], f[2], atoi(f[3]), atoi(f[4]), atoi(f[5]), atoi(f[6]), f[7] == "1", f[8] == "1"
+	if (route != "via" && route != "viafake") || (lst != "tcp" && lst != "plain" && lst != "tls") || n < 2 || n > 8 || early > 6000 || banner > 6000 {
+		return core.Result{Impl: "bad-op"}
+	}
+	core.Count(fmt.Sprintf("multi:%s:gate=%v:procs1=%v", route, gate, procs))
+	if procs {
+		old := runtime.GOMAXPROCS(1)
+		defer runtime.GOMAXPROCS(old)
+	}
+	e.status = -1 // the case is this op
+	e.timeout = idleTimeout
+	tuns := make([]*tun, n)
+	for i := range tuns {
+		tl, ok := e.listen()
+		if !ok {
+			return core.Result{Impl: "setup-failed", Fail: "listen failed", Sig: "c04:setup"}
+		}
+		sc, st := multiSeeds(seed, i)
+		tu := &tun{taddr: tl.Addr().String(), accepted: make(chan net.Conn, 1),
+			c: &end{seed: sc, recv: newDigest(), sent: newDigest()}, t: &end{seed: st, recv: newDigest(), sent: newDigest()}}
+		go func() {
+			if c, err := tl.Accept(); err == nil {
+				tu.accepted <- c
+			}
+		}()
+		tu.early = make([]byte, early)
+		for j := range tu.early {
+			tu.early[j] = pat(sc, j)
+		}
+		tuns[i] = tu
+	}
+	if gate {
+		e.gateHost, e.gateCh = tuns[0].taddr, make(chan struct{})
+	}
+	var down string
+	var ok bool
+	if route == "via" {
+		down, ok = e.newProxy("tcp", "tcp", "", idleTimeout)
+	} else {
+		e.fakeSeed = 0
+		down, ok = e.fakeProxy(banner)
+	}
+	if !ok {
+		return core.Result{Impl: "setup-failed", Fail: "listen failed", Sig: "c04:setup"}
+	}
+	paddr, ok := e.newProxy(lst, "tcp", down, idleTimeout)
+	if !ok {
+		return core.Result{Impl: "setup-failed", Fail: "listen failed", Sig: "c04:setup"}
+	}
+	var mu sync.Mutex
+	// request: connect the client, send CONNECT + early data, let the target accept and speak first
+	request := func(i int) string {
+		tu := tuns[i]
+		cc, craw, err := dialClient(paddr, lst)
+		if err != nil {
+			return "setup: client dial: " + err.Error()
+		}
+		mu.Lock()
+		e.conns = append(e.conns, cc)
+		mu.Unlock()
+		tu.c.conn, tu.c.raw, tu.c.rd = cc, craw, bufio.NewReaderSize(cc, 64<<10)
+		msg := []byte("CONNECT " + tu.taddr + " HTTP/1.1\r\nHost: " + tu.taddr + "\r\n\r\n")
+		cc.SetWriteDeadline(time.Now().Add(5 * time.Second))
+		if _, err := cc.Write(append(msg, tu.early...)); err != nil {
+			return "setup: client write: " + err.Error()
+		}
+		tu.c.sent.add(tu.early)
+		select {
+		case tc := <-tu.accepted:
+			mu.Lock()
+			e.conns = append(e.conns, tc)
+			mu.Unlock()
+			tu.t.conn, tu.t.raw, tu.t.rd = tc, tc, bufio.NewReaderSize(tc, 64<<10)
+			bb := make([]byte, banner)
+			for j := range bb {
+				bb[j] = pat(tu.t.seed, j)
+			}
+			if banner > 0 {
+				tc.SetWriteDeadline(time.Now().Add(5 * time.Second))
+				tc.Write(bb)
+			}
+			tu.t.sent.add(bb)
+			tu.t.start()
+		case <-time.After(2 * bound):
+			return fmt.Sprintf("tunnel %d: the target saw no connection within %v", i, 2*bound)
+		}
+		return ""
+	}
+	// answer: the client reads its 200
+	answer := func(i int) string {
+		tu := tuns[i]
+		st, _, err := readHead(tu.c.conn, tu.c.rd)
+		if err != nil || st/100 != 2 {
+			return fmt.Sprintf("tunnel %d: no 2xx head within %v (status %d, err %v)", i, bound, st, err)
+		}
+		tu.c.start()
+		return ""
+	}
+	var problems []string
+	note := func(p string) {
+		if p != "" {
+			mu.Lock()
+			problems = append(problems, p)
+			mu.Unlock()
+		}
+	}
+	if gate {
+		// tunnel 0 has connected downstream and waits in the response modifier while the others open completely
+		note(request(0))
+		for i := 1; i < n && len(problems) == 0; i++ {
+			note(request(i))
+			if len(problems) == 0 {
+				note(answer(i))
+			}
+		}
+		close(e.gateCh)
+		if len(problems) == 0 {
+			note(answer(0))
+		}
+	} else {
+		var wg sync.WaitGroup
+		for i := 0; i < n; i++ {
+			wg.Add(1)
+			go func(i int) {
+				defer wg.Done()
+				if p := request(i); p != "" {
+					note(p)
+					return
+				}
+				note(answer(i))
+			}(i)
+		}
+		wg.Wait()
+	}
+	for _, p := range problems {
+		if strings.HasPrefix(p, "setup:") {
+			return core.Result{Impl: "setup-failed", Fail: p, Sig: "c04:setup"}
+		}
+	}
+	if len(problems) > 0 {
+		return core.Result{Impl: "multi failed", Fail: "several tunnels at once: " + problems[0], Sig: "c04:multi:no-tunnel"}
+	}
+	// traffic on all tunnels at once
+	r := core.NewRand(uint64(seed))
+	errs := make(chan error, 2*n)
+	for i, tu := range tuns {
+		nC, nT := multiSizes(i)
+		rc, rt := r.Fork(), r.Fork()
+		go func(tu *tun) { errs <- tu.c.write(nC, rc) }(tu)
+		go func(tu *tun) { errs <- tu.t.write(nT, rt) }(tu)
+	}
+	for i := 0; i < 2*n; i++ {
+		select {
+		case err := <-errs:
+			if err != nil {
+				return core.Result{Impl: "multi failed", Fail: "several tunnels at once: a write into an open tunnel failed: " + err.Error(), Sig: "c04:multi:write-failed"}
+			}
+		case <-time.After(20 * time.Second):
+			return core.Result{Impl: "multi failed", Fail: "several tunnels at once: a write into an open tunnel blocked for 20 s", Sig: "c04:multi:write-blocked"}
+		}
+	}
+	moved := func() int {
+		m := 0
+		for _, tu := range tuns {
+			a, _ := tu.t.snap()
+			b, _ := tu.c.snap()
+			m += a.n + b.n
+		}
+		return m
+	}
+	waitQuiet(func() bool {
+		for _, tu := range tuns {
+			a, _ := tu.t.snap()
+			b, _ := tu.c.snap()
+			if a.n < tu.c.sent.n || b.n < tu.t.sent.n {
+				return false
+			}
+		}
+		return true
+	}, moved)
+	var parts []string
+	var res core.Result
+	for i, tu := range tuns {
+		td, _ := tu.t.snap()
+		cd, _ := tu.c.snap()
+		parts = append(parts, fmt.Sprintf("t=%s c=%s", td, cd))
+		if res.Fail != "" {
+			continue
+		}
+		if cd != tu.t.sent {
+			res.Sig = "c04:multi:t2c-not-delivered"
+			if cd.n >= tu.t.sent.n || cd.n > 0 && cd.h != prefixHash(tu.t.seed, cd.n) {
+				res.Sig = "c04:multi:t2c-corrupt"
+			}
+			res.Fail = fmt.Sprintf("%d tunnels at once: the target of tunnel %d has sent %s (its own banner of %d bytes first) but its client has received %s: not this tunnel's bytes", n, i, tu.t.sent, banner, cd)
+		} else if td != tu.c.sent {
+			res.Sig = "c04:multi:c2t-not-delivered"
+			if td.n >= tu.c.sent.n || td.n > 0 && td.h != prefixHash(tu.c.seed, td.n) {
+				res.Sig = "c04:multi:c2t-corrupt"
+			}
+			res.Fail = fmt.Sprintf("%d tunnels at once: the client of tunnel %d has sent %s (early data of %d bytes first) but its target has received %s", n, i, tu.c.sent, early, td)
+		}
+	}
+	res.Impl = "multi " + strings.Join(parts, " | ")
+	if res.Fail != "" {
+		return res
+	}
+	// every client finishes, every target sees it and finishes, every client sees that; release
+	for _, tu := range tuns {
+		if cw, ok := tu.c.conn.(interface{ CloseWrite() error }); ok {
+			cw.CloseWrite()
+		}
+	}
+	for i, tu := range tuns {
+		if !waitQuiet(func() bool { _, eof := tu.t.snap(); return eof }, moved) {
+			res.Fail, res.Sig = fmt.Sprintf("%d tunnels at once: client %d finished sending but its target has not seen end-of-stream", n, i), "c04:multi:eof-not-propagated-to-target"
+			return res
+		}
+		tu.t.conn.Close()
+	}
+	for i, tu := range tuns {
+		if !waitQuiet(func() bool { _, eof := tu.c.snap(); return eof }, moved) {
+			res.Fail, res.Sig = fmt.Sprintf("%d tunnels at once: target %d closed but its client has not seen end-of-stream", n, i), "c04:multi:eof-not-propagated-to-client"
+			return res
+		}
+		tu.c.conn.Close()
+	}
+	done := make(chan bool, len(e.proxies))
+	for _, p := range e.proxies {
+		p := p
+		go func() {
+			defer func() { recover() }()
+			p.Close()
+			done <- true
+		}()
+	}
+	e.released = "released"
+	deadline := time.After(bound)
+	for range e.proxies {
+		select {
+		case <-done:
+		case <-deadline:
+			e.released = "blocked"
+		}
+	}
+	if e.released != "released" {
+		res.Fail, res.Sig = fmt.Sprintf("%d tunnels at once: all ends have closed, but Proxy.Close() did not return within %v", n, bound), "c04:multi:not-released"
+	}
+	res.Impl += " " + e.released
+	return res
 }
 
 // unreach: a CONNECT whose dial fails. The first one sets the fixture up; further ones go over the
@@ -836,6 +1134,9 @@ func (e *ex) do(op string) core.Result {
 	switch f[0] {
 	case "unreach":
 		return e.unreach(f)
+
+	case "multi":
+		return e.multi(f)
 
 	case "open", "openfake":
 		if e.opened || e.status != 0 {
@@ -1326,7 +1627,7 @@ var confirmed = map[string]int{}
 
 func (P) Nontrivial(ops []string, impl []string) bool {
 	for _, l := range impl {
-		if strings.HasPrefix(l, "status ") {
+		if strings.HasPrefix(l, "status ") || strings.HasPrefix(l, "multi t=") {
 			return true
 		}
 	}
@@ -1334,6 +1635,13 @@ func (P) Nontrivial(ops []string, impl []string) bool {
 }
 
 var earlySizes = []int{0, 1, 517, 4096, 5000}
+
+func b2i(b bool) int {
+	if b {
+		return 1
+	}
+	return 0
+}
 
 func genSize(r *core.Rand, tier string) int {
 	switch r.Intn(12) {
@@ -1566,6 +1874,21 @@ func (P) Gen(r *core.Rand, tier string, emit0 func(ops []string)) {
 				emit([]string{fmt.Sprintf("openfake %s %s 0 %d %d %d %d %s", l, tg, []int{0, 5, 900}[(i+j)%3], r.Intn(256), r.Intn(256), st, style)})
 			}
 		}
+	}
+	// several tunnels at once through one proxy and one downstream proxy: gated (tunnel 0's 200 held back while
+	// the others connect) and free-running, on one P and on all of them
+	nM := 6
+	if tier == "thorough" {
+		nM = 60
+	}
+	for i := 0; i < nM; i++ {
+		ro := []string{"viafake", "via"}[i%2]
+		if i%3 == 2 {
+			ro = "viafake"
+		}
+		gate, procs := (i/2)%2 == 0, i%4 < 2
+		emit([]string{fmt.Sprintf("multi %s %s %d %d %d %d %d %d", ro, lsts[r.Intn(3)], r.Range(2, 6), earlySizes[r.Intn(len(earlySizes))],
+			r.Pick2(r.Range(1, 200), r.Range(200, 3500)), r.Intn(256), b2i(gate), b2i(procs))})
 	}
 	nU := 12
 	if tier == "thorough" {
